@@ -1,5 +1,5 @@
 (* C09 — uploads return exactly the requested stored bytes, or nothing. *)
-From Rdest Require Import Base Consts Wire Manager MgrProofs Handler HandlerProofs.
+From Rdest Require Import Base Consts Wire Manager MgrProofs Handler HandlerProofs StoreProofs.
 Open Scope N_scope.
 
 (* for every request (any index / begin / length, with or without overflow checks) and whatever is loaded
@@ -26,6 +26,23 @@ Proof. exact load_only_unchoked_owned. Qed.
 Theorem C09_choke_drops : forall sha1 cf disk ovf s r, exists s', hstep sha1 cf disk ovf s (EBroadOwn (Some true)) r = HCont s' [ASend Choke] /\ h_tx s' = None.
 Proof. intros. eexists. split; reflexivity. Qed.
 
+(* WHAT IS SERVED IS VERIFIED DATA (C01 meets C09).  If every file of the piece store hashes to its name -- which the
+   tasks' writes establish and keep (C09_store_stays_verified, from C01_writes_verified) -- and what the task has loaded
+   hashes to its piece's hash (kept by every event: C09_loaded_stays_verified), then every block sent in answer to a
+   request is a slice of data hashing to the torrent's hash of the requested piece *)
+Theorem C09_served_is_verified : forall sha1 cf disk ovf s ri rb rl r i b blk,
+  StoreVerified sha1 disk -> TxOk sha1 cf s ->
+  In (i, b, blk) (pieces_in (acts_of (handle_request cf disk ovf s ri rb rl r))) ->
+  exists t, bytes_eqb (sha1 (tx_buff t)) (hash_of cf (tx_index t)) = true /\
+            tx_index t mod 4294967296 = i /\ b = rb /\ blk = slice (tx_buff t) rb rl.
+Proof. intros sha1 cf disk ovf s ri rb rl r i b blk HS. exact (served_block_is_verified sha1 cf disk HS ovf s ri rb rl r i b blk). Qed.
+Theorem C09_loaded_stays_verified : forall sha1 cf disk ovf s ev r s' acts,
+  StoreVerified sha1 disk -> TxOk sha1 cf s -> hstep sha1 cf disk ovf s ev r = HCont s' acts -> TxOk sha1 cf s'.
+Proof. intros sha1 cf disk ovf s ev r s' acts HS. exact (tx_ok_kept sha1 cf disk HS ovf s ev r s' acts). Qed.
+Theorem C09_store_stays_verified : forall sha1 cf disk0 disk ovf s ev r,
+  StoreVerified sha1 disk -> StoreVerified sha1 (apply_writes disk (acts_of (hstep sha1 cf disk0 ovf s ev r))).
+Proof. exact writes_keep_store_verified. Qed.
+
 (* the pinned validation (32-bit addition) is refuted by the model with the repair flag off: see
    known_findings.json request-offset-overflow; non-vacuity of the answer: *)
 Example C09_nonvacuous :
@@ -37,3 +54,6 @@ Proof. vm_compute. reflexivity. Qed.
 Print Assumptions C09_reply.
 Print Assumptions C09_manager.
 Print Assumptions C09_choke_drops.
+Print Assumptions C09_served_is_verified.
+Print Assumptions C09_loaded_stays_verified.
+Print Assumptions C09_store_stays_verified.
